@@ -92,6 +92,16 @@ type harness struct {
 	cutAt        int
 	delayChar    bool
 	quietUntil   time.Duration
+	// desync windows: from a fault that DELAYS characters beyond a protocol timer until the line has
+	// next been silent for 2*T2+T1 (every engine idle, every stale character consumed). Inside such a
+	// window the line carries a surplus handshake character, every exchange is answered by the
+	// previous exchange's character, and SEMI E4 — which numbers neither EOT nor ACK — can acknowledge
+	// a block the other end never took (seen in the thorough tier: a stale EOT lets the host transmit
+	// while the master, which has just requested the line itself, discards everything but EOT; the
+	// stale ACK of a duplicate then confirms the block). Exactly-once is not demanded of a message
+	// whose transfer overlaps a window.
+	desync    [][2]time.Duration
+	lastWrite time.Duration
 	pipeSide     map[*simnet.Pipe]int
 	// reference E4 sender model per side (the oracle for "a block is attempted at most retry-limit+1
 	// times"): attempts of the send in progress = the ENQs this end has written since the send began
@@ -311,6 +321,10 @@ func (h *harness) mangle(p *simnet.Pipe, b []byte) []byte {
 			}
 		}
 	}
+	if n := len(h.desync); n > 0 && h.desync[n-1][1] < 0 && w.Now()-h.lastWrite >= 2*h.sc.T2+h.sc.T1 {
+		h.desync[n-1][1] = h.lastWrite // the silence that just ended re-synchronised the line
+	}
+	h.lastWrite = w.Now()
 	h.inBlockFault = false
 	out := b
 	// A late character is indistinguishable from a timely one, so after a delay fault the line
@@ -358,6 +372,7 @@ func (h *harness) mangle(p *simnet.Pipe, b []byte) []byte {
 					h.inBlockFault = true
 					h.cutAt = cut
 					h.quietUntil = w.Now() + h.sc.T1 + 4*h.sc.T2
+					h.openDesync()
 					w.Fault("delay-inside-block>T1")
 				} else {
 					out = nil
@@ -378,6 +393,7 @@ func (h *harness) mangle(p *simnet.Pipe, b []byte) []byte {
 			default:
 				h.delayChar = true
 				h.quietUntil = w.Now() + 5*h.sc.T2
+				h.openDesync()
 				w.Fault("delay-" + ev.kind + ">T2")
 			}
 		}
@@ -472,6 +488,28 @@ func (h *harness) onDeliver(side int, m *hsms.DataMessage) {
 		}
 	}
 	h.delivered[side] = append(h.delivered[side], tok)
+}
+
+func (h *harness) openDesync() {
+	if n := len(h.desync); n > 0 && h.desync[n-1][1] < 0 {
+		return
+	}
+	h.desync = append(h.desync, [2]time.Duration{h.w.Now(), -1})
+}
+
+// desynced reports whether m's transfer overlapped a desync window.
+func (h *harness) desynced(m *msg) bool {
+	for _, d := range h.desync {
+		end := d[1]
+		if end < 0 {
+			end = 1 << 62
+		}
+		if m.TRet >= d[0] && m.TCall <= end {
+			return true
+		}
+	}
+
+	return false
 }
 
 // t4Expired reports whether some gap between the receiver's acceptance (ACK) of two consecutive
@@ -602,6 +640,11 @@ func (h *harness) final(reason string) {
 					// E4's inter-block timer: the receiver legitimately discards a partial message when the
 					// next block arrives more than T4 after the previous one, although each block was ACKed
 					w.Probe("message_discarded_by_T4_between_blocks")
+
+					continue
+				}
+				if _, got := pos[m.Tok]; !got && h.desynced(m) {
+					w.Probe("message_lost_while_line_desynchronised_by_a_delay_fault")
 
 					continue
 				}
